@@ -7,7 +7,9 @@ Lean sequence of atomic set operations.
 Search: decisions against an independent statement of each documented bound; a refused event leaves no
 trace (not stored, not broadcast) and carries a reason; submissions that are in flight at the same time (same id claimed by
 different payloads included) each get the verdict of their own payload; during a refresh of an enforced allow list a
-concurrent reader never sees it empty; after the refresh the lists hold exactly the expected keys.
+concurrent reader never sees it empty; after the refresh the lists hold exactly the expected keys; a `validators` list with an
+entry that names no validator (misspelt module, module whose import raises, missing attribute, non-callable, not a dotted path,
+scalar for list) either keeps get_validator / the storage of both backends from being constructed or refuses every event.
 """
 import asyncio
 import random
@@ -18,7 +20,8 @@ from lib.hist import KVStore, SQLStore
 
 THEOREMS_TIED = ["C16_size_iff", "C16_recent_iff", "C16_kind_iff", "C16_whitelist_iff", "C16_blacklist_iff", "C16_pow_iff",
                  "C16_hellthread_iff", "C16_service_iff", "C16_dynamic_iff", "C16_pipeline", "C16_refresh_never_empty",
-                 "C16_refresh_result"]
+                 "C16_refresh_result", "C16_nip05_rejects_iff", "C16_nip05_unenforced_stays", "C16_nip05_never_shrinks",
+                 "C16_nip05_adds_only_author", "C16_nip05_candidate_admitted", "C16_nip05_other_kinds_untouched"]
 
 NOW = 1700000000
 A, B, C = "aa" * 32, "bb" * 32, "cc" * 32
@@ -188,6 +191,76 @@ def dynamic_verdict_cases(report, drv):
                     report.count("validator_is_pubkey_allowed")
     finally:
         dl.ALLOWED_PUBKEYS, dl.DENIED_PUBKEYS = old
+
+
+
+# ---- the NIP-05 policy (verification.is_nip05_verified) -------------------------------------------------------------
+
+NIP05_CONTENTS = ['{"name":"bob","nip05":"bob@example.com"}', '{"name":"bob"}', "", "nip05", "NIP05", "nip0", "xnip05x",
+                  '{"name":"nip05 fan"}', '{"nip":"05"}', '{"nip05":null}', "nip 05", "nıp05", "\x00nip05", "nip05" * 3,
+                  '{"about":"see nip-05"}', '{"nip05": "a@b", "nip05": "c@d"}']
+
+
+def nip05_cases(report, drv, rng, tier):
+    """verification.is_nip05_verified on status x kind x content x allow list (enforced / not, author on it / not): the verdict
+    and the process-global allow set afterwards vs the Lean model; oracle from the documentation: refused exactly when verification is
+    `enabled` and a kind-0 event does not mention nip05; an unenforced list is never switched on; an enforced list never shrinks; the only
+    key ever added is the author's, and only for kind-0 metadata that mentions nip05"""
+    try:
+        from nostr_relay import verification as vf
+    except Exception as e:                       # the optional dependency's stand-in is missing: nothing to tie
+        report.count("nip05_module_not_importable")
+        report.assumptions.append("nostr_relay.verification could not be imported (%s): the NIP-05 policy was not exercised" % type(e).__name__)
+        return
+    from nostr_relay import dynamic_lists as dl
+    from nostr_relay.errors import VerificationError
+
+    statuses = ["enabled", "passive", "disabled", None, "ENABLED", "", "on"]
+    kinds = [0, 0, 0, 1, 3, 10002, 10001, 30000, 31494]
+    lists = [[], [A], [B], [A, B], [C]]
+    old = set(dl.ALLOWED_PUBKEYS)
+    n = 0
+    try:
+        combos = [(st, k, c, al, pk) for st in statuses for k in kinds for c in NIP05_CONTENTS for al in lists for pk in (A, B)]
+        rng.shuffle(combos)
+        for st, k, content, al, pk in combos[:(900 if tier == "quick" else len(combos))]:
+            dl.ALLOWED_PUBKEYS.clear()
+            dl.ALLOWED_PUBKEYS.update(bytes.fromhex(x) for x in al)
+            config = {"verification": {"nip05_verification": st}} if st is not None else (rng.choice([{}, {"verification": {}}]))
+            ev = mk_ev(kind=k, pubkey=pk)
+            ev.content = content
+            try:
+                vf.is_nip05_verified(ev, config)
+                v = "ok"
+            except VerificationError as ex:
+                v = "reject"
+                if not str(ex):
+                    report.property_failure("is_nip05_verified refuses without a reason", {"validator": "is_nip05_verified"}, None)
+            except Exception:
+                v = "raises"
+            after = sorted(x.hex() for x in dl.ALLOWED_PUBKEYS)
+            payload = {"validator": "is_nip05_verified", "status": st, "kind": k, "content": content, "allowed": al, "pubkey": pk}
+            m = drv.call({"op": "adm.nip05", "status": st or "", "kind": k, "content": content.encode("utf-8").hex(), "pubkey": pk,
+                          "allowed": al})
+            if m != {"verdict": v, "allowed": after}:
+                report.correspondence_break("verification.is_nip05_verified", payload, {"verdict": v, "allowed": after}, m)
+            mentions = "nip05" in content
+            want_reject = st == "enabled" and k == 0 and not mentions
+            want_after = sorted(set(al) | ({pk} if (st in ("enabled", "passive") and k == 0 and mentions and al) else set()))
+            if (v == "reject") != want_reject or v == "raises":
+                report.property_failure("is_nip05_verified %s a kind-%d event (content %r) under nip05_verification=%r"
+                                        % ({"ok": "admits", "reject": "refuses", "raises": "raises on"}[v], k, content[:30], st), payload, None)
+            if after != want_after:
+                report.property_failure("is_nip05_verified left the allow list as %d key(s), expected %d (enforced lists never shrink, "
+                                        "unenforced ones are never switched on, only a candidate's own key is added)"
+                                        % (len(after), len(want_after)), payload, None)
+            report.case(("nip05", st, k, content, tuple(al), pk), nontrivial=(st in ("enabled", "passive") and k == 0),
+                        sample={"validator": "is_nip05_verified", "verdict": v})
+            report.count("validator_is_nip05_verified")
+            n += 1
+    finally:
+        dl.ALLOWED_PUBKEYS.clear()
+        dl.ALLOWED_PUBKEYS.update(old)
 
 
 def pipeline_cases(report, rng, tier):
@@ -649,6 +722,440 @@ def dynamic_case(report, drv, rng, allow_old, allow_new, deny_new, whitelist, ou
     report.count("dynamic_refreshes")
 
 
+# ---- configuration errors --------------------------------------------------------------------------
+#
+# "Configured policies are applied to every event, fail-closed" also speaks about configurations that cannot be honoured.  The
+# `validators` list of the storage section comes from the operator's YAML as dotted paths MODULE.NAME, and nothing guarantees
+# that every entry names something: a module path with a typing slip, a module whose import raises on this machine (a missing
+# optional dependency — nostr_relay.verification needs nostr_bot, which is absent here — a site module that fails to initialise),
+# an attribute the module does not have, an attribute that is not a function, an entry that is not a dotted path at all (empty,
+# null, a number, a nested list or a mapping produced by a stray `:` / `-`), a scalar where the list should be.  An entry that
+# names no validator is a policy the relay was told to enforce and cannot evaluate, so for every such configuration EITHER the
+# storage refuses to be constructed / set up (the relay does not start) OR every submitted event is refused; an event must
+# never be stored or broadcast because the entry that would have refused it (or any other entry) silently dropped out of the
+# chain.  The scenarios below build chains of real validators with ONE entry replaced by a member of those families (derived
+# from a real validator V by general rules: slips of each component of the path, structural variants, scratch modules whose
+# import fails in the common ways), at every position of the chain, and submit an event that violates exactly V's policy
+# next to an event that satisfies every policy — to the real get_validator and to the real storage classes of both backends.
+# Whether an entry "names a validator" is decided by the harness on its own (names_a_validator below), not read off the relay;
+# the same oracle covers the correctly spelt chain (control): admitted iff every entry names a validator and the event
+# satisfies each of them.
+
+POLICY_VALIDATORS = ["is_not_too_large", "is_recent", "is_certain_kind", "is_author_whitelisted", "is_author_blacklisted", "is_pow",
+                     "is_not_hellthread", "is_service_event"]
+VPATH = "nostr_relay.validators"
+
+# modules of a site-packages directory that exists for the duration of the scenario (fixed names: replays rebuild them)
+SCRATCH_MODULES = {
+    # import fails: an optional dependency is not installed (ModuleNotFoundError raised INSIDE an existing module)
+    "c16site_missing_dep.py": "import c16site_dependency_that_is_not_installed\nfrom nostr_relay.validators import is_pow as check\n",
+    # import fails: `from x import name` of a name that module does not have (ImportError that is not ModuleNotFoundError)
+    "c16site_import_from.py": "from nostr_relay.validators import c16site_no_such_validator as check\n",
+    # import fails with something that is not an ImportError at all
+    "c16site_raises.py": "raise RuntimeError('the site policy cannot be initialised')\n",
+    "c16site_oserror.py": "POLICY = open('/nonexistent/c16site/policy.json').read()\n\ndef check(event, config):\n    pass\n",
+    "c16site_zero.py": "LIMIT = 1 // 0\n\ndef check(event, config):\n    pass\n",
+    "c16site_syntax.py": "def check(event, config):\n    return (\n",
+    # a package whose __init__ fails, the validator in a sound submodule of it
+    "c16site_pkg/__init__.py": "import c16site_dependency_that_is_not_installed\n",
+    "c16site_pkg/policy.py": "def check(event, config):\n    pass\n",
+    # importable; attributes that are not functions
+    "c16site_values.py": "LIMIT = 5\nNAMES = ['is_pow']\nNOTHING = None\nPATH = 'nostr_relay.validators.is_pow'\nTABLE = {}\n",
+}
+
+
+class scratch_site:
+    """the scratch modules on sys.path; removed (files, path entry, import caches, loaded modules) on exit"""
+
+    def __enter__(self):
+        import importlib
+        import os
+        import sys
+
+        self.dir = common.scratch_dir("nrc16site-")
+        for rel, src in SCRATCH_MODULES.items():
+            path = os.path.join(self.dir, rel)
+            os.makedirs(os.path.dirname(path), exist_ok=True)
+            with open(path, "w") as fp:
+                fp.write(src)
+        sys.path.append(self.dir)
+        importlib.invalidate_caches()
+        return self
+
+    def __exit__(self, *exc):
+        import importlib
+        import shutil
+        import sys
+
+        while self.dir in sys.path:
+            sys.path.remove(self.dir)
+        sys.path_importer_cache.pop(self.dir, None)
+        for name in [m for m in sys.modules if m.split(".")[0].startswith("c16site_")]:
+            del sys.modules[name]
+        importlib.invalidate_caches()
+        shutil.rmtree(self.dir, ignore_errors=True)
+        return False
+
+
+def names_a_validator(entry):
+    """the independent statement of "this entry of the list names a validator": a string MODULE.NAME whose MODULE can be
+    imported here and has a callable attribute NAME"""
+    import importlib
+
+    if not isinstance(entry, str) or "." not in entry:
+        return False
+    module, _, name = entry.rpartition(".")
+    if not module or not name:
+        return False
+    try:
+        m = importlib.import_module(module)
+    except BaseException:
+        return False
+    return callable(getattr(m, name, None))
+
+
+def _slips(word):
+    """typing slips of one identifier: a letter dropped (end, start, middle), doubled, two neighbours swapped, another case,
+    plural / singular, the separator dropped or replaced"""
+    mid = len(word) // 2
+    out = [word[:-1], word[1:], word[:mid] + word[mid + 1:], word + word[-1], word[:mid] + word[mid + 1] + word[mid] + word[mid + 2:],
+           word.upper(), word.capitalize(), word + "s", word.replace("_", ""), word.replace("_", "-"), word + "_"]
+    seen, res = {word}, []
+    for w in out:
+        if w and w not in seen:
+            seen.add(w)
+            res.append(w)
+    return res
+
+
+def broken_entries(v):
+    """family -> the entries that stand where `nostr_relay.validators.<v>` was meant (or, for the families that are not about
+    spelling, where it stood)"""
+    import yaml
+
+    good = "%s.%s" % (VPATH, v)
+    fam = {}
+    pkg, mod = VPATH.split(".")
+    fam["module-misspelt"] = (["%s.%s.%s" % (p, mod, v) for p in _slips(pkg)] + ["%s.%s.%s" % (pkg, m, v) for m in _slips(mod)]
+                              + ["%s.%s" % (mod, v),                       # the package left out
+                                 "%s.storage.%s.%s" % (pkg, mod, v),       # a level too many
+                                 "%s.%s.%s.check" % (pkg, mod, v),         # the function taken for a module
+                                 " " + good,                               # a blank in front (quoted in the YAML)
+                                 "%s/%s.%s" % (pkg, mod, v)])              # a file path
+    fam["import-raises"] = ["c16site_missing_dep.check", "c16site_import_from.check", "c16site_raises.check", "c16site_oserror.check",
+                            "c16site_zero.check", "c16site_syntax.check", "c16site_pkg.policy.check",
+                            # the relay's own NIP-05 module: imports nostr_bot at the top
+                            "nostr_relay.verification.is_nip05_verified"]
+    fam["attribute-missing"] = (["%s.%s" % (VPATH, n) for n in _slips(v)]
+                                + ["%s.%s" % (VPATH, v[3:] if v.startswith("is_") else "is_" + v),     # the prefix left out
+                                   good + " ", "%s:%s" % (VPATH, v), good + "()", "%s.validate_%s" % (VPATH, v[3:])])
+    fam["not-callable"] = [VPATH + ".__doc__", VPATH + ".__name__", VPATH + ".asyncio", VPATH + ".__builtins__",
+                           "c16site_values.LIMIT", "c16site_values.NAMES", "c16site_values.NOTHING", "c16site_values.PATH",
+                           "c16site_values.TABLE", "nostr_relay.config.Config"]
+    # what a YAML list item turns into after the slips one makes in YAML (parsed by the YAML library, as the relay's loader does)
+    items = ['""', "' '", "~", "", "7", "true", "0.5", v, "." + v, VPATH + ".", ".", "..", good + ":", "- " + good, "[%s]" % good,
+             "{%s: %s}" % (VPATH, v), "'%s, %s.is_signed'" % (good, VPATH)]
+    fam["not-a-path"] = [yaml.safe_load("- " + t)[0] for t in items]
+    return fam
+
+
+def scalar_chains(v, rest):
+    """the whole `validators` value is a scalar instead of a list (`validators: a.b.c`, or several paths on one line)"""
+    good = "%s.%s" % (VPATH, v)
+    return [good, ", ".join(rest + [good]), " ".join(rest + [good])]
+
+
+def _entries_of(chain):
+    """the entries the relay will find when it walks the configured value (a scalar string is walked character by character)"""
+    return list(chain)
+
+
+def _violated(e, c, chain):
+    """the policies among the (well-formed) entries of `chain` that event `e` violates — by the documented bounds (spec);
+    is_signed is satisfied by construction of the events used here (genuinely signed, or not part of the chain)"""
+    bad = []
+    for entry in _entries_of(chain):
+        if isinstance(entry, str) and entry.startswith(VPATH + ".") and entry[len(VPATH) + 1:] in POLICY_VALIDATORS:
+            if not spec(entry[len(VPATH) + 1:], c, e):
+                bad.append(entry[len(VPATH) + 1:])
+    return bad
+
+
+MISCONF_CFG = dict(max_event_size=50, oldest_event=1000, valid_kinds=[1, 7, 31494], require_pow=8, hellthread_limit=3)
+
+
+def _violation_kw(rng, v, pub):
+    """the change that makes a conforming event violate exactly validator v (around and beyond its bound)"""
+    if v == "is_not_too_large":
+        return {"content_len": 51 + rng.choice([0, 1, 100, 5000])}
+    if v == "is_recent":
+        return {"created_at": rng.choice([NOW - 1001 - rng.randrange(1000), NOW + 3601 + rng.randrange(1000)])}
+    if v == "is_certain_kind":
+        return {"kind": rng.choice([0, 2, 4, 8, 30000])}
+    if v == "is_author_whitelisted":
+        return {"pubkey": pub["outsider"]}
+    if v == "is_author_blacklisted":
+        return {"pubkey": pub["denied"]}
+    if v == "is_pow":
+        return {"id_bits": rng.choice([249, 250, 256])}
+    if v == "is_not_hellthread":
+        return {"p_tags": rng.choice([4, 5, 40]), "kind": rng.choice([1, 7])}
+    if v == "is_service_event":
+        return {"kind": 31494}
+    raise KeyError(v)
+
+
+def _chain_around(rng, v, others, entry, always=()):
+    """a chain of real validators (those of `others` in random number and order, `always` included) with `entry` put at a
+    random position — first, in the middle, last"""
+    rest = list(always) + rng.sample(others, rng.randrange(0, min(4, len(others)) + 1))
+    rng.shuffle(rest)
+    chain = ["%s.%s" % (VPATH, n) for n in rest]
+    pos = rng.randrange(len(chain) + 1)
+    return chain[:pos] + [entry] + chain[pos:], pos
+
+
+def _judge(report, where, case, built, construct_exc, verdicts, seen=None):
+    """the oracle of this section.  `built`: the validator chain / storage could be constructed; `verdicts`: role ->
+    dict(refused, reason, trace) for the events submitted to it.  `seen`: failures already reported per (level, family) — the
+    report keeps 20 failing inputs, two per level and family leave room for every level and family that fails"""
+    chain = case["validators"]
+    if seen is not None:
+        failure, n = report.property_failure, seen.setdefault((where, case["family"]), [0])
+
+        class _Limited:
+            @staticmethod
+            def property_failure(what, replay, cls=None):
+                n[0] += 1
+                report.count("misconfig_failures")
+                if n[0] <= 2:
+                    failure(what, replay, cls)
+            count = report.count
+        report = _Limited
+    unusable = [x for x in _entries_of(chain) if not names_a_validator(x)]
+    replay = {"misconfigured": case}
+    if not built:
+        if not unusable:
+            report.property_failure("%s: every entry of the validator list names a validator, yet the construction fails (%s)"
+                                    % (where, construct_exc), replay, None)
+        report.count("misconfig_outcome_does_not_start" if unusable else "misconfig_outcome_control_broken")
+        return "does-not-start"
+    for role, vd in verdicts.items():
+        owed_bad = vd["violates"]
+        if unusable:
+            if not vd["refused"] or vd["trace"]:
+                report.property_failure(
+                    "%s: the configured validator list has an entry that names no validator (%r, position %d of %d, family %s); "
+                    "the %s was constructed all the same and an event %s was %s — a configured policy silently dropped out "
+                    "instead of failing closed" % (
+                        where, unusable[0] if len(unusable) == 1 else chain, case["position"] + 1, len(_entries_of(chain)),
+                        case["family"], "validator chain" if case["level"] == "get_validator" else "storage",
+                        ("that violates %s (the policy this entry stands for in the chain: no other entry refuses the event)" % case["meant"]) if role == "violating"
+                        else "that satisfies every policy",
+                        "admitted" if not vd["refused"] else "refused but stored or broadcast"), replay, None)
+        elif owed_bad:
+            if not vd["refused"] or vd["trace"]:
+                report.property_failure("%s: an event violating %s was %s (correctly spelt chain)"
+                                        % (where, "+".join(owed_bad), "admitted" if not vd["refused"] else "stored or broadcast"),
+                                        replay, None)
+            elif not vd["reason"]:
+                report.property_failure("%s: refusal without a reason" % where, replay, None)
+        elif vd["refused"]:
+            report.property_failure("%s: a conforming event was refused by a correctly spelt chain: %s" % (where, vd["reason"]),
+                                    replay, None)
+    report.count("misconfig_outcome_refuses_every_event" if unusable else "misconfig_outcome_control_applies_policies")
+    return "refuses-every-event" if unusable else "control"
+
+
+def misconfig_direct(report, loop, case, seen=None):
+    """validators.get_validator on the chain, then the returned coroutine function on both events"""
+    from nostr_relay import validators
+
+    validators.time = lambda: NOW
+    c = types.SimpleNamespace(**case["config"])
+    chain = case["validators"]
+    verdicts, exc = {}, None
+    try:
+        validate = validators.get_validator(chain if isinstance(chain, str) else list(chain))
+        built = True
+    except Exception as ex:
+        built, exc = False, "%s: %s" % (type(ex).__name__, ex)
+    if built:
+        for role in ("violating", "conforming"):
+            e = mk_ev(**case["events"][role])
+            vd = {"refused": False, "reason": "", "trace": False, "violates": _violated(e, c, chain)}
+            try:
+                loop.run_until_complete(validate(e, c))
+            except Exception as ex:
+                vd["refused"], vd["reason"] = True, str(ex) or type(ex).__name__
+            verdicts[role] = vd
+    out = _judge(report, "get_validator", case, built, exc, verdicts, seen)
+    report.case(("misconfigured", "get_validator", repr(chain), repr(case["events"])), nontrivial=True,
+                sample={"misconfigured": case["family"], "level": "get_validator", "outcome": out})
+    report.count("misconfig_get_validator_" + case["family"])
+
+
+def misconfig_store(report, case, seen=None):
+    """the real storage class of one backend constructed and set up with the chain (as the relay does at start), then both
+    events through its add_event; the Config attributes the validators read are set from case['config']"""
+    import shutil
+    from nostr_relay.config import Config
+    from nostr_relay import validators
+
+    validators.time = lambda: NOW
+    missing = object()
+    # (service_pubkey is a read-only property of the Config object, derived from service_privatekey)
+    settable = {k: v for k, v in case["config"].items() if not isinstance(getattr(type(Config), k, None), property)}
+    saved = {k: vars(Config).get(k, missing) for k in settable}
+    for k, v in settable.items():
+        setattr(Config, k, v)
+    c = types.SimpleNamespace(**case["config"])
+    chain = case["validators"]
+    cls = KVStore if case["backend"] == "kv" else SQLStore
+    mine = asyncio.new_event_loop()
+    asyncio.set_event_loop(mine)
+    st = cls.__new__(cls)
+    verdicts, exc = {}, None
+    try:
+        try:
+            st.__init__(validators=chain, service_key=case["config"].get("service_privatekey"))
+            built = True
+        except Exception as ex:
+            built, exc = False, "%s: %s" % (type(ex).__name__, ex)
+            # the half-built adapter: its scratch directory and its loop
+            if getattr(st, "dir", None):
+                shutil.rmtree(st.dir, ignore_errors=True)
+            cur = asyncio.get_event_loop()
+            if cur is not mine:
+                cur.close()
+        if built:
+            try:
+                for role in ("violating", "conforming"):
+                    d = case["events"][role]
+                    e = types.SimpleNamespace(content=d["content"], created_at=d["created_at"], kind=d["kind"], pubkey=d["pubkey"],
+                                              tags=d["tags"], id=d["id"])
+                    before = st.dump()
+                    res = st.add(dict(d))
+                    refused = res["exc"] is not None
+                    trace = refused and (bool(res["broadcast"]) or st.dump() != before or st.get(d["id"]) is not None)
+                    verdicts[role] = {"refused": refused, "reason": res["reason"], "trace": trace, "violates": _violated(e, c, chain)}
+            finally:
+                st.close()
+                if st.loop is not mine and not st.loop.is_running():
+                    st.loop.close()
+    finally:
+        asyncio.set_event_loop(mine)
+        for k, v in saved.items():
+            if v is missing:
+                vars(Config).pop(k, None)
+            else:
+                setattr(Config, k, v)
+    out = _judge(report, case["backend"], case, built, exc, verdicts, seen)
+    report.case(("misconfigured", case["backend"], repr(chain), case["events"]["violating"]["id"]), nontrivial=True,
+                sample={"misconfigured": case["family"], "level": "storage", "backend": case["backend"], "outcome": out})
+    report.count("misconfig_%s_%s" % (case["backend"], case["family"]))
+    mine.close()
+
+
+def _mined(key, kw, pow_ok, require):
+    """a genuinely signed event whose id has at least `require` leading zero bits (pow_ok) or fewer (not pow_ok): a NIP-13
+    nonce tag is counted up"""
+    from aionostr.event import Event
+
+    n = 0
+    while True:
+        ev = Event(**dict(kw, tags=kw["tags"] + [["nonce", str(n), str(require)]]))
+        if ((256 - int(ev.id, 16).bit_length()) >= require) == pow_ok:
+            break
+        n += 1
+    ev.sign(key.hex())
+    return ev.to_json_object()
+
+
+def misconfigured_cases(report, rng, tier):
+    from aionostr.key import PrivateKey
+
+    prev = asyncio.get_event_loop()
+    loop = asyncio.new_event_loop()
+    seen = {}
+    try:
+        with scratch_site():
+            # -- the chain builder itself: every member of every family for every validator, random rest and position
+            pub = {"member": A, "denied": B, "outsider": "dd" * 32}
+            conf = dict(MISCONF_CFG, pubkey_whitelist=[A, B], pubkey_blacklist=[B], service_pubkey=C)
+            c = types.SimpleNamespace(**conf)
+            for rep in range(1 if tier == "quick" else 5):
+                for v in POLICY_VALIDATORS:
+                    ok_kw = dict(content_len=rng.randrange(0, 51), created_at=NOW - rng.randrange(0, 1000), kind=rng.choice([1, 7]),
+                                 pubkey=A, id_bits=rng.randrange(1, 249), p_tags=rng.randrange(0, 4))
+                    bad_kw = dict(ok_kw, **_violation_kw(rng, v, pub))
+                    ok_e, bad_e = mk_ev(**ok_kw), mk_ev(**bad_kw)
+                    others = [w for w in POLICY_VALIDATORS if w != v and spec(w, c, bad_e)]
+                    assert not spec(v, c, bad_e) and all(spec(w, c, ok_e) for w in POLICY_VALIDATORS), (v, ok_kw, bad_kw)
+                    fams = broken_entries(v)
+                    fams["control"] = ["%s.%s" % (VPATH, v)]
+                    for family, entries in fams.items():
+                        for entry in entries:
+                            if family != "control" and names_a_validator(entry):
+                                report.count("misconfig_skipped_resolves_here")     # (e.g. nostr_bot is installed after all)
+                                continue
+                            chain, pos = _chain_around(rng, v, others, entry)
+                            misconfig_direct(report, loop, {"level": "get_validator", "family": family, "meant": v, "position": pos,
+                                                            "validators": chain, "config": conf,
+                                                            "events": {"violating": bad_kw, "conforming": ok_kw}}, seen)
+                    for chain in scalar_chains(v, ["%s.%s" % (VPATH, w) for w in rng.sample(others, min(1, len(others)))]):
+                        misconfig_direct(report, loop, {"level": "get_validator", "family": "scalar-for-list", "meant": v, "position": 0,
+                                                        "validators": chain, "config": conf,
+                                                        "events": {"violating": bad_kw, "conforming": ok_kw}}, seen)
+            # -- the storage classes of both backends, with genuinely signed events (is_signed is part of every chain)
+            member, denied, outsider, service = (PrivateKey(bytes([b]) * 32) for b in (1, 2, 7, 8))
+            conf = dict(MISCONF_CFG, pubkey_whitelist=[member.public_key.hex(), denied.public_key.hex()],
+                        pubkey_blacklist=[denied.public_key.hex()], service_privatekey=service.hex(),
+                        service_pubkey=service.public_key.hex())
+            c = types.SimpleNamespace(**conf)
+            serial = 0
+            for v in POLICY_VALIDATORS:
+                fams = broken_entries(v)
+                for backend in ("kv", "sql"):
+                    picks = [("control", "%s.%s" % (VPATH, v))]
+                    for family, entries in fams.items():
+                        entries = [x for x in entries if not names_a_validator(x)]
+                        # quick: one member of each family per validator and backend (thorough: every member)
+                        picks += [(family, x) for x in (entries if tier != "quick" else rng.sample(entries, min(1, len(entries))))]
+                    picks.append(("scalar-for-list", rng.choice(scalar_chains(v, [VPATH + ".is_signed"]))))
+                    for family, entry in picks:
+                        serial += 1
+                        key = {"is_author_whitelisted": outsider, "is_author_blacklisted": denied}.get(v, member)
+                        kw = dict(pubkey=key.public_key.hex(), content="note %d" % serial, kind=rng.choice([1, 7]),
+                                  created_at=NOW - rng.randrange(1000), tags=[["t", "n%d" % serial]])
+                        ok_d = _mined(member, dict(kw, pubkey=member.public_key.hex()), True, conf["require_pow"])
+                        if v == "is_not_too_large":
+                            kw["content"] = "x" * (51 + rng.choice([0, 1, 100, 5000]))
+                        elif v == "is_recent":
+                            kw["created_at"] = rng.choice([NOW - 1001 - rng.randrange(1000), NOW + 3601 + rng.randrange(1000)])
+                        elif v == "is_certain_kind":
+                            kw["kind"] = rng.choice([2, 4, 8, 30000])
+                        elif v == "is_not_hellthread":
+                            kw["tags"] = kw["tags"] + [["p", "%064x" % (i + 1)] for i in range(rng.choice([4, 5, 40]))]
+                        elif v == "is_service_event":
+                            kw["kind"] = 31494
+                            kw["tags"] = kw["tags"] + [["d", "n%d" % serial]]
+                        bad_d = _mined(key, kw, v != "is_pow", conf["require_pow"])
+                        bad_e = types.SimpleNamespace(**{k: bad_d[k] for k in ("content", "created_at", "kind", "pubkey", "tags", "id")})
+                        ok_e = types.SimpleNamespace(**{k: ok_d[k] for k in ("content", "created_at", "kind", "pubkey", "tags", "id")})
+                        others = [w for w in POLICY_VALIDATORS if w != v and spec(w, c, bad_e)]
+                        assert not spec(v, c, bad_e) and all(spec(w, c, ok_e) for w in POLICY_VALIDATORS), (v, bad_d, ok_d)
+                        chain, pos = _chain_around(rng, v, others, entry, always=["is_signed"])
+                        if family == "scalar-for-list":
+                            chain, pos = entry, 0
+                        misconfig_store(report, {"level": "storage", "backend": backend, "family": family, "meant": v, "position": pos,
+                                                 "validators": chain, "config": conf, "events": {"violating": bad_d, "conforming": ok_d}},
+                                        seen)
+    finally:
+        loop.close()
+        asyncio.set_event_loop(prev)
+
+
 def run(report, tier, seed):
     rng = random.Random(seed)
     drv = common.Driver()
@@ -664,9 +1171,19 @@ def run(report, tier, seed):
         "twice, different conforming / violating events — each member owed the verdict and reason of its own payload, compared "
         "with an independent statement and with a reference store that receives the same payloads sequentially; dynamic list refreshes with an "
         "instrumented set (probe before/after every set operation and at every await of the query loop), old list empty / "
-        "non-empty, new result empty / several chunks, static whitelist on/off, deny list on/off")
+        "non-empty, new result empty / several chunks, static whitelist on/off, deny list on/off; configuration errors: chains of "
+        "real validators with one entry replaced by an entry that names no validator — every typing slip of each component of the "
+        "module path and of the function name, structural variants, scratch modules / packages whose import raises (missing "
+        "dependency, ImportError of a name, RuntimeError, OSError, ZeroDivisionError, SyntaxError) and nostr_relay.verification "
+        "(nostr_bot absent), attributes that are not callable, YAML items that are not dotted paths (empty, null, numbers, nested "
+        "list, mapping), a scalar for the list — at a random position, for each of the eight policy validators, through "
+        "get_validator (every member) and through the construction + add_event of both storage backends (quick: one member per "
+        "family, validator and backend), each with an event violating exactly the replaced policy and a conforming one: the "
+        "construction is refused or every event is refused without trace; correctly spelt controls apply the policies")
     report.assumptions += ["GIL-level atomicity of a single set method is trusted (the probe looks between methods)",
-                           "clock: validators.time replaced by a constant"]
+                           "clock: validators.time replaced by a constant",
+                           "configuration errors: whether an entry names a validator is decided by importing it in the harness "
+                           "process (same sys.path as the relay code under test)"]
     try:
         for e in report.known:
             r = common.load_finding_replay(e)
@@ -674,6 +1191,7 @@ def run(report, tier, seed):
                 dynamic_case(report, drv, rng, r["allow_old"], r["allow_new"], r["deny_new"], r["whitelist"], r["outsider"])
         validator_cases(report, drv)
         dynamic_verdict_cases(report, drv)
+        nip05_cases(report, drv, rng, tier)
         pipeline_cases(report, rng, tier)
         concurrent_cases(report, rng, tier)
         keys = [("%02x" % i) * 32 for i in range(1, 9)]
@@ -685,6 +1203,7 @@ def run(report, tier, seed):
             wl = [] if rng.random() < 0.5 else [keys[7]]
             outsider = "ee" * 32
             dynamic_case(report, drv, rng, old, new, deny, wl, outsider)
+        misconfigured_cases(report, rng, tier)
     finally:
         drv.close()
 
@@ -702,6 +1221,14 @@ def replay(report, path):
             r = it.get("replay") or it.get("input")
             if "allow_old" in r:
                 dynamic_case(report, drv, rng, r["allow_old"], r["allow_new"], r["deny_new"], r["whitelist"], r["outsider"])
+            elif "misconfigured" in r:
+                case = r["misconfigured"]
+                with scratch_site():
+                    if case["level"] == "get_validator":
+                        misconfig_direct(report, loop, case)
+                    else:
+                        misconfig_store(report, case)
+                asyncio.set_event_loop(loop)
             elif "concurrent" in r:
                 rig = ConcurrentRig()
                 try:
